@@ -235,6 +235,57 @@ def inline_resolver(ctx, names):
     return resolve
 
 
+UNKNOWN = object()
+
+
+def val_eval(t, env):
+    """Concrete evaluation of a term over Python constants (None / str / int / bool) for scenario tables: `env` maps leaf terms to values.
+    Returns UNKNOWN when a leaf is not in `env` or an operator is not modelled. `getattr(o, 'f', d)` is read as o.f (falling back to d only
+    when `env` has neither)."""
+    if t in env:
+        return env[t]
+    tag = t[0]
+    if tag == 'const':
+        return t[1]
+    if tag == 'call' and T.dotted(t[1]) == 'getattr' and len(t[2]) in (2, 3) and t[2][1][0] == 'const':
+        a = ('attr', t[2][0], t[2][1][1])
+        if a in env:
+            return env[a]
+        return val_eval(t[2][2], env) if len(t[2]) == 3 else UNKNOWN
+    if tag == 'ifexp':
+        c = val_eval(t[1], env)
+        return UNKNOWN if c is UNKNOWN else val_eval(t[2] if c else t[3], env)
+    if tag == 'boolop':
+        v = UNKNOWN
+        for x in t[2]:
+            v = val_eval(x, env)
+            if v is UNKNOWN:
+                return UNKNOWN
+            if (t[1] == 'or' and v) or (t[1] == 'and' and not v):
+                return v
+        return v
+    if tag == 'unop' and t[1] == 'not':
+        v = val_eval(t[2], env)
+        return UNKNOWN if v is UNKNOWN else (not v)
+    if tag == 'cmp':
+        a, b = val_eval(t[2], env), val_eval(t[3], env)
+        if a is UNKNOWN or b is UNKNOWN:
+            return UNKNOWN
+        op = t[1]
+        try:
+            if op == '==': return a == b
+            if op == '!=': return a != b
+            if op == 'is': return a is b
+            if op == 'is not': return a is not b
+            if op == '<': return a < b
+            if op == '<=': return a <= b
+            if op == 'in': return a in b
+            if op == 'not in': return a not in b
+        except Exception:
+            return UNKNOWN
+    return UNKNOWN
+
+
 def truth(t, decide):
     """three-valued truth of a boolean term; `decide(atom)` answers the leaves (anything that is not and / or / not), None = unknown.
     Short-circuit order is respected: an `and` is False as soon as an earlier operand is False, whatever follows (even unknown)."""
